@@ -40,7 +40,8 @@ def plan(tier: str, seed: int) -> list[dict]:
     runs = []
 
     def add(opt, desc, cfg, mode="serial", workers=None, tag=""):
-        runs.append({"id": len(runs) + 1, "opt": opt, "desc": desc, "cfg": cfg, "mode": mode, "workers": workers, "tag": tag})
+        runs.append({"id": len(runs) + 1, "opt": opt, "desc": desc, "cfg": cfg, "mode": mode, "workers": workers, "tag": tag,
+                     "debug": rng.random() < 0.12, "other": gen.task_desc(rng, desc.get("encoding"))})
 
     reps = 24 if tier == "thorough" else 3
     for opt in gen.OPTIMIZERS:
@@ -132,7 +133,7 @@ def run_one(spec: dict, timeout: int = 120) -> dict:
         os.close(fd)
     tasks.REC.reset(logpath)
     cfg0, task0 = _dump_model(cfg), _dump_model(task)
-    o = traced.TRACED[opt](cfg)
+    o = traced.TRACED[opt](cfg, debug=bool(spec.get("debug")))
     res, crash, crash_msg = None, "", ""
     signal.signal(signal.SIGALRM, _alarm)
     signal.alarm(timeout)
@@ -170,6 +171,15 @@ def run_one(spec: dict, timeout: int = 120) -> dict:
                 o2 = getattr(_pv, opt)(cfgcls(**spec["cfg"]))
                 r2 = o2.optimize(tasks.build_task(desc))
                 out["repro"] = 1 if digest(r2) == d0 else 0
+                # ... then a run on ANOTHER task of the same encoding (other bounds / dimension / direction / weights), and
+                # the original task again: must still equal the fresh-instance result
+                tasks.REC.reset()
+                other = spec.get("other")
+                if other and gen.precondition(opt, spec["cfg"], other) is None:
+                    try:
+                        o2.optimize(tasks.build_task(other))
+                    except Exception:
+                        pass          # a crash on the other task is C06's business; the instance is "used" either way
                 tasks.REC.reset()
                 r3 = o2.optimize(tasks.build_task(desc))
                 out["reuse"] = 1 if digest(r3) == d0 else 0
